@@ -297,7 +297,11 @@ def build_pool(cs, ctx):
     return pool
 
 
+KNOWN_HITS = []      # known-finding signatures met during the current call
+
+
 def catalogue():
+    import os
     from hydrodiy.stat import metrics, sutils, armodels
     from hydrodiy.data import dutils, qualitycontrol, signatures
     from hydrodiy.gis import grid as hgrid, gutils
@@ -478,7 +482,13 @@ def catalogue():
         """A catchment description whose cell lists do not fit its grid (made
         for a larger grid, or edited by hand), then the usual methods."""
         n = int(a.fd.nrows * a.fd.ncols)
-        if o.get("negative") == "wrap32":
+        if o.get("negative") == "int64_edge":
+            # cell numbers next to the ends of the 64-bit range
+            cells = np.array([(-2 ** 63 + abs(c)) if i % 2 == 0
+                              else (2 ** 63 - 1 - abs(c))
+                              for i, c in enumerate(o["cells"])],
+                             dtype=np.int64)
+        elif o.get("negative") == "wrap32":
             # in-grid numbers shifted by a multiple of 2^32
             cells = np.array([abs(c) + 2 ** 32 for c in o["cells"]],
                              dtype=np.int64)
@@ -513,7 +523,8 @@ def catalogue():
                               for i in range(cs.between("nc", 2, 6))],
                     "far": cs.choice("far", [1, 3, 1000, 2 ** 33]),
                     "negative": cs.weighted("negative", [(False, 6), (True, 3),
-                                                         ("wrap32", 2)]),
+                                                         ("wrap32", 2),
+                                                         ("int64_edge", 2)]),
                     "then": [cs.choice(f"t{i}", ["boundary", "extent",
                                                  "flowpaths", "intersect",
                                                  "voronoi"])
@@ -585,7 +596,53 @@ def catalogue():
         weight=5)
 
     # ---- c-module date helpers
+    def dates_readonly(o):
+        """The date helpers write their answer into the array they are given:
+        a read-only one must be refused, not written (known finding
+        C05/date_helpers_write_readonly_buffer: the Cython wrappers do not ask
+        for a writable buffer; recorded, not an alarm)."""
+        base = np.array(o["d"], dtype=np.int32)
+        if o["ro"] == "flag":
+            d_ro = base.copy()
+            d_ro.flags.writeable = False
+            for f in (chd.add1month, chd.add1day,
+                      lambda d: chd.getdate(20010315.0, d)):
+                before = d_ro.copy()
+                try:
+                    f(d_ro)
+                except Exception:
+                    continue           # refused: what should happen
+                if not np.array_equal(d_ro, before):
+                    KNOWN_HITS.append("C05/date_helpers_write_readonly_buffer")
+                    return
+        else:
+            # a read-only memory map: writing into it kills the process, so
+            # the call is made in a forked copy of this one
+            import tempfile
+            fd, fn = tempfile.mkstemp(prefix="hyverif-rodate-", dir="/dev/shm")
+            os.write(fd, base.tobytes())
+            os.close(fd)
+            pid = os.fork()
+            if pid == 0:
+                try:
+                    dn = os.open(os.devnull, os.O_WRONLY)
+                    os.dup2(dn, 2)
+                    mm = np.memmap(fn, dtype=np.int32, mode="r", shape=(3,))
+                    try:
+                        chd.add1day(mm)
+                    except Exception:
+                        os._exit(0)
+                    os._exit(0 if np.array_equal(np.asarray(mm), base) else 7)
+                finally:
+                    os._exit(9)
+            _, status = os.waitpid(pid, 0)
+            os.unlink(fn)
+            if os.WIFSIGNALED(status) or os.WEXITSTATUS(status) == 7:
+                KNOWN_HITS.append("C05/date_helpers_write_readonly_buffer")
+
     def dates(a, o):
+        if o.get("ro"):
+            dates_readonly(o)
         d = np.array(o["d"], dtype=np.int32)
         d2 = np.array(o["d2"], dtype=np.int32)
         out = [chd.isleapyear(o["d"][0]), chd.daysinmonth(o["d"][0],
@@ -603,6 +660,8 @@ def catalogue():
                           cs.choice("dd", [1, 28, 29, 31, 0, 32, -1])],
                     "d2": [cs.choice("y2", [2000, 2001]),
                            cs.choice("m2", [1, 12]), cs.choice("d2", [1, 31])],
+                    "ro": cs.weighted("ro", [(None, 7), ("flag", 2),
+                                             ("memmap", 1)]),
                     "day": cs.choice("day", [20010315.0, 0.0, -1.0,
                                              20011340.0, 99999999.0,
                                              23622320101.0, 1e300, -1e300,
